@@ -106,7 +106,7 @@ TB_COMMON = [
 
 PROPS = {
     "C01": {"verus": ["vfw", "vleaf"], "kani": ["k_new_fracs"] + STATE_PARTS, "untagged": True, "title": "Framework is total",
-            "explanation": "Verus proves, generically in the machine container M, the RNG R and the clock T, that trigger_events / process_event / transition / update_counter / schedule_action / decrement_limit / below_action_limits and the bodies of below_limit_padding / below_limit_blocking never index out of bounds, never overflow an integer, never unwrap None; recursion and all loops terminate (decreases on the per-machine CounterZero guards); an event naming a non-existent machine touches no machine [C01.ids]; one machine step makes at most 1 + (guards consumed) <= 3 deliveries [C01.steps] and a whole call at most (events + 2) * (3 * machines + 3) [C01.work] (ghost delivery log, folded over the loops by lemmas). Kani: Framework::new accepts exactly fractions in [0,1]; State::validate validates the distributions of the action and of both counters, so that validated machines cannot make a sampler panic [C01.valid]. Not machine-checked: Framework::new's machine loop (iter_mut().zip()). Explicit hypotheses: packet counters < 2^64; dur_headroom (known finding F5)."},
+            "explanation": "Verus proves, generically in the machine container M, the RNG R and the clock T, that trigger_events / process_event / transition / update_counter / schedule_action / decrement_limit / below_action_limits and the bodies of below_limit_padding / below_limit_blocking never index out of bounds, never overflow an integer, never unwrap None; recursion and all loops terminate (decreases on the per-machine CounterZero guards); an event naming a non-existent machine touches no machine [C01.ids]; one machine step makes at most 1 + (guards consumed) <= 3 deliveries [C01.steps] and a whole call at most (events + 2) * (3 * machines + 3) [C01.work] (ghost delivery log, folded over the loops by lemmas). The invariant all of this rests on is established, not assumed: the body of Framework::new is verified to hand out an instance with wf(), every machine in state 0, empty slots, zero counters and accounting [C01.init]; State::validate / Machine::validate are verified to accept only machines whose targets are existing states or pseudo-states [C01.targets], and State::sample_state to return only declared targets (for lists of any length). Kani: Framework::new accepts exactly fractions in [0,1]; State::validate validates the distributions of the action and of both counters, so that validated machines cannot make a sampler panic [C01.valid]. Explicit hypotheses: packet counters < 2^64; dur_headroom (known finding F5)."},
     "C02": {"verus": ["vfw"], "kani": ["k_pad"], "title": "Padding budgets",
             "explanation": "K-PAD: Kani function contract on the real below_limit_padding, all u64 counters, all fractions in [0,1], bit-precise IEEE-754: true => state limit > 0 and (budget left or both fractions below, zero packets counting as below). V-FW: a slot that changes to SendPadding satisfies pad_budget_ok on the accounting of that moment [C02.prov]; machine steps never write the accounting and process_event counts NormalSent / PaddingSent (any id) before the machines run [C02.acct]; folded over the machine loops, the event loop and the signal rounds: after a call that reports ONE event every returned SendPadding slot satisfies pad_budget_ok on the final accounting [C02.single] - the statement of the property, as a postcondition of trigger_events."},
     "C03": {"verus": ["vfw"], "kani": ["k_blk"], "title": "Blocking budgets",
@@ -117,7 +117,7 @@ PROPS = {
             "explanation": "V-SEM: the real bodies of trigger_events, process_event, transition, update_counter, schedule_action, decrement_limit and below_action_limits are proved to satisfy `final.view() == sem_f(old.view(), args)` where view() is the whole instance as a mathematical value (runtimes, slots, RNG, clock, accounting, pending signal) and sem_trigger / sem_event / sem_all / sem_round / sem_transition / sem_update_counter / sem_schedule / sem_decrement are spec functions written from the documented operational semantics (events in order, machines in index order, LimitReached and CounterZero at once, one round of signals). Equality with a function is determinism: equal instances (e.g. an instance and its clone) fed equal inputs have equal views and return equal slots. Assumed: every leaf sampler is a function of its arguments and the RNG state, the two limit predicates and the clock arithmetic are functions of their arguments [C05.det] - justified by the mechanical ambient-authority scan [C05.ambient] (no static mut, thread_local, Cell/RefCell/Atomic, Instant::now, SystemTime, thread_rng, OsRng, unsafe in the non-test code of crates/maybenot/src); Framework::new is not covered."},
     "C06": {"verus": ["vfw"], "kani": ["k_event_index", "k_sample_none", "k_sample_1", "k_sample_2", "k_sample_3", "k_sample_4"],
             "title": "Transition probabilities",
-            "explanation": "sample_state, executed through the real rand 0.8 gen_range(0.0..1.0), equals the cumulative-threshold specification for every 32-bit RNG word and every validated probability vector; BOUNDED in the list length (k = 1, 2 quick; 3 thorough). The counting step from thresholds to shares (within 2^-23) is done on paper in DESIGN.md."},
+            "explanation": "V-FW (unbounded in the list length): the real body of State::sample_state returns pick(list, r, 0) where r is the single uniform draw and pick is written from the statement - thresholds are the running f32 sums p1, p1+p2, .. in list order, the first threshold above r wins, no threshold above r => no transition, no list for the event => None and no draw [C06.pick][C06.draw]; f32 < and + are uninterpreted functions of their operands there (rules R11, R12, R15). K-SAMPLE (bit-precise, BOUNDED in the list length: k = 1, 2, 3 quick; 4 thorough): sample_state executed through the real rand 0.8 gen_range(0.0..1.0) equals the cumulative-threshold specification for every 32-bit RNG word and every validated probability vector, a probability-1 transition is always taken, Event::to_usize is the discriminant. The counting step from thresholds to shares (within 2^-23) is done on paper in DESIGN.md."},
     "C07": {"verus": ["vfw", "vleaf"], "kani": ["k_pad", "k_blk", "k_clamp_limit"], "title": "Per-state limits",
             "explanation": "limit > 0 is a conjunct of every limited action's predicate (V-LEAF on the real bodies generic in T, K-PAD / K-BLK bit-precise) and scheduling is preceded by a true predicate [C07.pos]; a transition reports Unchanged exactly when the machine entered no state - also across CounterZero round trips (ghost epoch counter) [C07.epoch] - and then keeps state and limit [C07.once]; a completion consumes the limit only if the machine did not change state [C07.own] and only LimitReached deliveries for the machine the completion names occur [C07.own]; decrement_limit saturates at 0 and raises LimitReached exactly when the decremented limit is 0 and the state's action carries a limit, after withdrawing the slot [C07.reach]; sample_limit without a limit distribution is u64::MAX (Kani)."},
     "C08": {"verus": ["vfw"], "kani": ["k_counter_value"], "title": "Counters",
@@ -128,7 +128,7 @@ PROPS = {
             "explanation": "Write frame: a step of machine i leaves every other machine's runtime, slot and state-change count untouched [C10.frame], writes no framework-level state other than rng and signal_pending (sanctioned) [C10.shared], delivers events only to machine i [C10.local]; every global event is delivered to every live machine whatever the other machines do [C10.observe] (postcondition of process_event). The relational solo-vs-combined lemma is not attempted; C05's functional semantics make the dependence of machine i's step on (its own runtime, its machine, shared accounting, rng) explicit."},
     "C12": {"verus": ["vfw"], "kani": ["k_valid_machine", "k_new_fracs"] + VALID_DIST + STATE_PARTS,
             "title": "Validation soundness",
-            "explanation": "Kani on the real validate functions: accepted fractions are real numbers in [0,1] [C12.fracs]; Framework::new accepts exactly fractions in [0,1] [C12.new]; accepted distributions have parameters the sampler's constructor accepts plus the explicit speed bounds, for 7 of the 11 families (uniform, normal, skewnormal, lognormal, binomial, pareto, weibull) [C12.dist]; State::validate validates the distribution of the action and of BOTH counters in every shape of the counter pair [C12.parts]. NOT decided: State::validate's transition loop (targets, duplicates, probabilities, sums): CBMC does not finish on the real HashSet code and Verus rejects the loop (continue in an iterator for-loop); poisson / geometric / gamma / beta constructors. from_str / Machine::new calling validate is by inspection."},
+            "explanation": "V-FW verifies the real bodies of State::validate, Machine::validate, Action::validate, Counter::validate, Machine::new and Framework::new against a well-formedness predicate written from the property text: Ok => every target an existing state or pseudo-state [C12.targets], no duplicate targets [C12.dups], every probability not NaN, not <= 0, not > 1 [C12.probs], the f32 running sum not > 1 [C12.sum], every distribution of the action and of both counters accepted by Dist::validate [C12.dists], fractions accepted by (0.0..=1.0).contains, 1..=STATE_MAX states [C12.machine]; for lists, states and machine sets of any size. Floating point comparisons / additions are uninterpreted functions of their operands there (extraction rules R11-R14); what they mean arithmetically is Kani's part: accepted fractions are real numbers in [0,1] for every f64 [C12.fracs], Framework::new accepts exactly fractions in [0,1] [C12.new], accepted distributions have parameters the sampler's constructor accepts plus the explicit speed bounds for 7 of the 11 families [C12.dist], State::validate checks action and both counters in every shape of the counter pair [C12.parts]. Same judgement on every path: Machine::new is Ok exactly when Machine::validate accepts the assembled machine, Framework::new is Ok exactly when both fractions and every machine are accepted - so a framework built from accepted machines with fractions in [0,1] never fails [C12.same] (stated through the exact acceptance set, an auxiliary obligation [C12.aux_acc]: if the code's judgement changes in a way the property allows, the check reports undecided, not a violation). NOT decided: Machine::from_str (base64 / zlib / bincode are outside both tools; that it ends in validate() is by inspection); poisson / geometric / gamma / beta constructors."},
     "C13": {"verus": [], "kani": ["k_dist_sample", "k_clamp_timeout", "k_clamp_duration", "k_clamp_limit",
                                   "k_counter_value"] + VALID_DIST, "title": "Sampling in range",
             "explanation": "Dist::sample with the underlying rand_distr sampler over-approximated by 'returns any f64': the result is not NaN, >= 0, <= max when max > 0, and finite, for all 11 families and all start/max including NaN and infinities; the consumers' conversions never panic and clamp to one day. NOT decided: that the rand_distr samplers return promptly (probabilistic termination) - an explicit assumption."},
